@@ -506,52 +506,97 @@ Lemma chan_overlap_entry env a b :
   chan_overlap (entry_to_o env a) (entry_to_o env b) = leaf_chan_match (e_leaf a) (e_leaf b).
 Proof. reflexivity. Qed.
 
-Lemma pair_ok_sound env sa a sb b : env_ok env -> ER env sa a -> ER env sb b -> pair_ok sa sb = true ->
-  negb (chan_overlap (entry_to_o env a) (entry_to_o env b) && time_overlap (entry_to_o env a) (entry_to_o env b)) = true.
+Fixpoint all_pairs (q : oentry -> oentry -> bool) (l : list oentry) : bool :=
+  match l with [] => true | a :: t => forallb (q a) t && all_pairs q t end.
+Definition q_strict (a b : oentry) : bool := negb (chan_overlap a b && time_overlap a b).
+Definition q_overlap (a b : oentry) : bool := negb (positive a && positive b && chan_overlap a b && time_overlap a b).
+Definition q_barrier (a b : oentry) : bool := negb ((is_barrier a || is_barrier b) && chan_overlap a b && time_overlap a b).
+Lemma no_overlap_strict_pairs l : no_overlap_strict l = all_pairs q_strict l.
+Proof. induction l as [|a t IH]; simpl; [reflexivity | rewrite IH; reflexivity]. Qed.
+Lemma no_overlap_pairs l : no_overlap l = all_pairs q_overlap l.
+Proof. induction l as [|a t IH]; simpl; [reflexivity | rewrite IH; reflexivity]. Qed.
+Lemma barrier_clear_pairs l : barrier_clear l = all_pairs q_barrier l.
+Proof. induction l as [|a t IH]; simpl; [reflexivity | rewrite IH; reflexivity]. Qed.
+
+Lemma cert_pairs_sound env pk q sl es :
+  (forall sa a sb b, ER env sa a -> ER env sb b -> pk sa sb = true -> q (entry_to_o env a) (entry_to_o env b) = true) ->
+  Forall2 (ER env) sl es -> cert_list_with pk sl = true -> all_pairs q (map (entry_to_o env) es) = true.
 Proof.
-  intros E [La [Sa Ta]] [Lb [Sb Tb]] H. rewrite chan_overlap_entry, La, Lb. unfold pair_ok in H.
+  intros Q F. induction F as [|sa a sl es Ra F IH]; intros H; simpl in *; [reflexivity|].
+  apply andb_true_iff in H as [H1 H2]. rewrite (IH H2), andb_true_r.
+  clear IH H2. induction F as [|sb b sl es Rb F IH]; simpl in *; [reflexivity|].
+  apply andb_true_iff in H1 as [P H1]. rewrite (IH H1), andb_true_r. exact (Q _ _ _ _ Ra Rb P).
+Qed.
+
+Lemma pair_ok_strict_sound env sa a sb b : env_ok env -> ER env sa a -> ER env sb b -> pair_ok_strict sa sb = true ->
+  q_strict (entry_to_o env a) (entry_to_o env b) = true.
+Proof.
+  intros E [La [Sa Ta]] [Lb [Sb Tb]] H. unfold q_strict. rewrite chan_overlap_entry, La, Lb. unfold pair_ok_strict in H.
   destruct (leaf_chan_match (se_leaf sa) (se_leaf sb)); [|reflexivity]. simpl in H.
   unfold time_overlap, entry_to_o; cbn [oe_s oe_e].
   destruct (mp_le (se_end sa) (se_start sb)) eqn:H1.
   { pose proof (mp_le_sound env _ _ _ _ E H1 Ta Sb). lia. }
   destruct (mp_le (se_end sb) (se_start sa)) eqn:H2.
   { pose proof (mp_le_sound env _ _ _ _ E H2 Tb Sa). lia. }
-  simpl in H. apply andb_true_iff in H as [H3 H4].
+  simpl in H. unfold snonpos in H. apply andb_true_iff in H as [H3 H4].
   pose proof (mp_le_sound env _ _ _ _ E H3 Ta Sa). pose proof (mp_le_sound env _ _ _ _ E H4 Tb Sb). lia.
 Qed.
 
-Lemma cert_list_sound env sl es : env_ok env -> Forall2 (ER env) sl es -> cert_list sl = true ->
-  no_overlap_strict (map (entry_to_o env) es) = true.
+Lemma snonpos_sound env sa a : env_ok env -> ER env sa a -> snonpos sa = true -> positive (entry_to_o env a) = false.
 Proof.
-  intros E F. induction F as [|sa a sl es Ra F IH]; intros H; simpl in *; [reflexivity|].
-  apply andb_true_iff in H as [H1 H2]. rewrite (IH H2), andb_true_r.
-  clear IH H2. induction F as [|sb b sl es Rb F IH]; simpl in *; [reflexivity|].
-  apply andb_true_iff in H1 as [P H1]. rewrite (IH H1), andb_true_r.
-  apply (pair_ok_sound env _ _ _ _ E Ra Rb P).
+  intros E [_ [Sa Ta]] H. unfold snonpos in H. pose proof (mp_le_sound env _ _ _ _ E H Ta Sa).
+  unfold positive, entry_to_o; cbn [oe_s oe_e]. lia.
+Qed.
+Lemma sis_barrier_sound env sa a : ER env sa a -> is_barrier (entry_to_o env a) = sis_barrier sa.
+Proof. intros [La _]. unfold is_barrier, sis_barrier, entry_to_o; cbn [oe_cls]. rewrite La. reflexivity. Qed.
+
+Lemma pair_ok_overlap env sa a sb b : env_ok env -> ER env sa a -> ER env sb b -> pair_ok sa sb = true ->
+  q_overlap (entry_to_o env a) (entry_to_o env b) = true.
+Proof.
+  intros E Ra Rb H. unfold pair_ok in H. apply orb_true_iff in H as [H|H].
+  - pose proof (pair_ok_strict_sound env _ _ _ _ E Ra Rb H) as Q. unfold q_strict in Q. unfold q_overlap.
+    destruct (chan_overlap _ _), (time_overlap _ _); simpl in *; try discriminate; rewrite ?andb_false_r; reflexivity.
+  - apply andb_true_iff in H as [H _]. apply andb_true_iff in H as [H _]. unfold q_overlap.
+    apply orb_true_iff in H as [H|H];
+      [rewrite (snonpos_sound env _ _ E Ra H) | rewrite (snonpos_sound env _ _ E Rb H)]; rewrite ?andb_false_r; reflexivity.
+Qed.
+Lemma pair_ok_barrier env sa a sb b : env_ok env -> ER env sa a -> ER env sb b -> pair_ok sa sb = true ->
+  q_barrier (entry_to_o env a) (entry_to_o env b) = true.
+Proof.
+  intros E Ra Rb H. unfold pair_ok in H. apply orb_true_iff in H as [H|H].
+  - pose proof (pair_ok_strict_sound env _ _ _ _ E Ra Rb H) as Q. unfold q_strict in Q. unfold q_barrier.
+    destruct (chan_overlap _ _), (time_overlap _ _); simpl in *; try discriminate; rewrite ?andb_false_r; reflexivity.
+  - apply andb_true_iff in H as [H B2]. apply andb_true_iff in H as [_ B1]. unfold q_barrier.
+    rewrite (sis_barrier_sound env _ _ Ra), (sis_barrier_sound env _ _ Rb).
+    apply negb_true_iff in B1, B2. rewrite B1, B2. reflexivity.
 Qed.
 
-Lemma strict_no_overlap l : no_overlap_strict l = true -> no_overlap l = true.
-Proof.
-  induction l as [|a t IH]; simpl; [reflexivity|]. intros H. apply andb_true_iff in H as [H1 H2].
-  rewrite (IH H2), andb_true_r. revert H1. apply forallb_impl. intros b _ H.
-  destruct (chan_overlap a b && time_overlap a b) eqn:X; [discriminate|].
-  destruct (positive a), (positive b), (chan_overlap a b), (time_overlap a b); simpl in *; congruence.
-Qed.
-
-Lemma strict_barrier_clear l : no_overlap_strict l = true -> barrier_clear l = true.
-Proof.
-  induction l as [|a t IH]; simpl; [reflexivity|]. intros H. apply andb_true_iff in H as [H1 H2].
-  rewrite (IH H2), andb_true_r. revert H1. apply forallb_impl. intros b _ H.
-  destruct (is_barrier a || is_barrier b), (chan_overlap a b), (time_overlap a b); simpl in *; congruence.
-Qed.
-
-(* unbounded in the setting: one evaluation of the certificate covers every admissible setting *)
-Theorem certified_strict ns : cert_no_overlap ns = true -> forall env, env_ok env ->
+(* unbounded in the setting: one evaluation of a certificate covers every admissible setting *)
+Theorem certified_strict ns : cert_strict ns = true -> forall env, env_ok env ->
   no_overlap_strict (o_ops (model_obs env ns)) = true.
 Proof.
-  unfold cert_no_overlap. destruct (slisting ns) as [sl|] eqn:S; [|discriminate]. intros C env E.
+  unfold cert_strict, cert_with. destruct (slisting ns) as [sl|] eqn:S; [|discriminate]. intros C env E.
+  change (o_ops (model_obs env ns)) with (map (entry_to_o env) (listing env ns)). rewrite no_overlap_strict_pairs.
+  apply (cert_pairs_sound env pair_ok_strict q_strict sl);
+    [intros; eapply pair_ok_strict_sound; eauto | apply slisting_sound; assumption | exact C].
+Qed.
+
+Theorem certified_ok ns : cert_no_overlap ns = true -> forall env, env_ok env ->
+  no_overlap (o_ops (model_obs env ns)) = true /\ barrier_clear (o_ops (model_obs env ns)) = true.
+Proof.
+  unfold cert_no_overlap, cert_with. destruct (slisting ns) as [sl|] eqn:S; [|discriminate]. intros C env E.
   change (o_ops (model_obs env ns)) with (map (entry_to_o env) (listing env ns)).
-  apply (cert_list_sound env sl); [exact E | apply slisting_sound; assumption | exact C].
+  rewrite no_overlap_pairs, barrier_clear_pairs. pose proof (slisting_sound env E ns sl S) as F. split.
+  - apply (cert_pairs_sound env pair_ok q_overlap sl); [intros; eapply pair_ok_overlap; eauto | exact F | exact C].
+  - apply (cert_pairs_sound env pair_ok q_barrier sl); [intros; eapply pair_ok_barrier; eauto | exact F | exact C].
+Qed.
+
+(* the strict certificate implies the exact one *)
+Lemma cert_strict_implies ns : cert_strict ns = true -> cert_no_overlap ns = true.
+Proof.
+  unfold cert_strict, cert_no_overlap, cert_with. destruct (slisting ns) as [sl|]; [|auto].
+  induction sl as [|a t IH]; simpl; [auto|]. intros H. apply andb_true_iff in H as [H1 H2]. rewrite (IH H2), andb_true_r.
+  revert H1. apply forallb_impl. intros b _ H. unfold pair_ok. rewrite H. reflexivity.
 Qed.
 
 (* ------------------------------------------------------------------ unrolling does not look at the setting *)
@@ -576,10 +621,11 @@ Proof. unfold apply_modifiers. apply apply_mods_fuel_env. Qed.
 (* ------------------------------------------------------------------ headline statements *)
 Theorem certified ns : cert_no_overlap ns = true -> forall env, env_nonneg env -> env_parity env ->
   no_overlap (o_ops (model_obs env ns)) = true /\ barrier_clear (o_ops (model_obs env ns)) = true.
-Proof.
-  intros C env N P. pose proof (certified_strict ns C env (env_ok_of env N P)) as S.
-  split; [apply strict_no_overlap | apply strict_barrier_clear]; exact S.
-Qed.
+Proof. intros C env N P. exact (certified_ok ns C env (env_ok_of env N P)). Qed.
+
+Theorem certified_strict' ns : cert_strict ns = true -> forall env, env_nonneg env -> env_parity env ->
+  no_overlap_strict (o_ops (model_obs env ns)) = true.
+Proof. intros C env N P. exact (certified_strict ns C env (env_ok_of env N P)). Qed.
 
 Theorem certified_unrolled ns env0 : cert_no_overlap (apply_modifiers env0 1 ns) = true ->
   forall env, env_nonneg env -> env_parity env ->
@@ -726,3 +772,13 @@ Example ex_bad_overlaps :
   /\ no_overlap (o_ops (model_obs (mk_env 8 24 8 8 []) ex_bad)) = false
   /\ no_overlap (o_ops (model_obs (mk_env 24 8 8 8 []) ex_bad)) = true.
 Proof. repeat split; try (unfold env_nonneg; simpl; lia); vm_compute; reflexivity. Qed.
+(* exact against strict certificate: a detector annotation (no length, channel ALL of q0) placed at the end of q1's measurement
+   lands strictly inside the X180 pulse on q0 whenever R < M.  The property allows it (neither is a Barrier, the annotation
+   has no length): the exact certificate accepts, the strict one refuses. *)
+Definition ex_annot : list node :=
+  [ Node None LNone (ex_barrier 0);
+    Node (Some 0%nat) (LRel FB 0) (OLeaf (mk_leaf 1 C_Rx180 [0] QubitChannel_ALL (DGlobal GMicrowave) None));
+    Node (Some 0%nat) (LRel FB 0) (OLeaf (mk_leaf 2 C_DispersiveMeasure [1] QubitChannel_ALL (DGlobal GReadout) (Some (1, 0))));
+    Node (Some 2%nat) (LRel FB 2) (OLeaf (mk_leaf 3 C_DetectorOperation [0] QubitChannel_ALL (DFixed 0) None)) ].
+Example ex_annot_exact_not_strict : cert_no_overlap ex_annot = true /\ cert_strict ex_annot = false.
+Proof. split; vm_compute; reflexivity. Qed.
